@@ -27,7 +27,7 @@ MANIFEST = {
                  "correspondence with the real CLI tool",
 }
 
-REQUIRED = ["KV.C12.ctl_output", "KV.C12.ctl_no_deadlock", "KV.C12.ctl_terminates", "KV.C12.ctl_queues_are_fifo", "KV.C12.pcqueue_is_fifo", "KV.C12.ctl_output_arpa", "KV.C12.ctl_output_raw",
+REQUIRED = ["KV.C12.ctl_output", "KV.C12.ctl_no_deadlock", "KV.C12.ctl_terminates", "KV.C12.ctl_queues_are_fifo", "KV.C12.pcqueue_is_fifo", "KV.C12.batch_never_exceeds_reserve", "KV.C12.ctl_output_arpa", "KV.C12.ctl_output_raw",
             "KV.C12.Old.not_ctl_no_deadlock", "KV.C12.Old.not_ctl_output_raw", "KV.C12.Old.not_ctl_output_last"]
 
 TIMEOUT = 20
@@ -429,6 +429,64 @@ def sched_stream(env, hexe, pool):
     return False
 
 
+# ------------------------------------------------------------------ large batches of short lines
+def gen_large_case(rng, fmt):
+    """70..140 k lines of at most 15 bytes (std::string small-buffer) in ONE section, so that a batch larger than 65536
+    lines fills up: InputBuffer keeps a StringPiece into every line and must never reallocate `lines_`."""
+    n = rng.randrange(70000, 140000)
+    words = [b"a", b"b", b"c", b"d", b"e", b"f", b"gh", b"ij"]
+    if fmt == "raw":
+        lines = [rng.choice(words) + b" " + rng.choice(words) + b"\t%d" % rng.randrange(1, 100) for _ in range(n)]
+        model = b"\n".join(lines) + b"\n"
+        case = dict(fmt="raw", model=model)
+    else:
+        uni = [b"-1.0\t" + w + b"\t-0.5" for w in words]
+        big = [b"-%d.%d\t" % (rng.randrange(1, 5), rng.randrange(10)) + rng.choice(words) + b" " + rng.choice(words) for _ in range(n)]
+        model = (b"\\data\\\nngram 1=%d\nngram 2=%d\n\n\\1-grams:\n" % (len(uni), n) + b"\n".join(uni) + b"\n\n\\2-grams:\n" +
+                 b"\n".join(big) + b"\n\n\\end\\\n")
+        case = dict(fmt="arpa", model=model, orders=[uni, big])
+    assert max(len(l) for l in model.split(b"\n")) <= 15
+    mode = rng.choice(["single", "union", "multiple"])
+    case["mode"] = mode
+    case["context"] = False
+    case["vocab"] = b"a b c d e gh\n" if mode == "single" else b"a b c gh\nb d e f\n"
+    return case
+
+
+def large_batch_stream(env, pool):
+    """class `large batch / short lines`: batch_size > 65536 with more than 65536 n-grams in one section"""
+    ctx = env.ctx
+    fmts = ["raw", "arpa"] if ctx.tier == "quick" else ["raw", "arpa", "raw", "arpa", "raw", "arpa"]
+    for fmt in fmts:
+        case = gen_large_case(ctx.rng, fmt)
+        multiple = case["mode"] == "multiple"
+        vp, mp = env.paths(case["vocab"], case["model"])
+        case["vp"], case["mp"] = vp, mp
+        st1, ref, cmd1 = run_config(env, case, 1, 1, "lref", timeout=120)
+        if st1 != "ok":
+            ctx.violation("threads:1 run failed (%s) on the large input" % st1, {"cmd": cmd1})
+            return True
+        configs = [(ctx.rng.choice([2, 3]), b) for b in ([ctx.rng.choice([65537, 100000, 1000000])] if ctx.tier == "quick"
+                                                          else [65537, 100000, 1000000])]
+        for t, b in configs:
+            st, files, cmd = run_config(env, case, t, b, "large", timeout=120)
+            d = classify(ref, st, files, multiple)
+            nl = case["model"].count(b"\n")
+            ctx.count(("large", fmt, case["mode"], t, b, nl), nontrivial=True)
+            ctx.hist("large_batch", "%s b=%d" % (fmt, b))
+            ctx.hist("status", st if d is None else ("VIOLATION:" + (d if d in ("hang", "crash", "error") else "diff")))
+            if d is not None:
+                ctx.violation(
+                    "threaded filter differs from threads:1 (%s) on %d short lines with %s %s threads:%d batch_size:%d" % (
+                        d, nl, case["mode"], fmt, t, b),
+                    {"stream": "filter-threads/large-batch", "replay_cmd": " ".join(cmd) + " < MODEL  # compare with threads:1",
+                     "status": st, "difference": d, "lines": nl, "vocab": case["vocab"].decode("latin-1"),
+                     "model_head": case["model"][:300].decode("latin-1"),
+                     "generator": "checks/C12.py gen_large_case(fmt=%r) at VERIF_SEED=%d" % (fmt, ctx.seed)})
+                return True
+    return False
+
+
 def run(ctx):
     problems, consts = flow.proof_phase(ctx, "C12", required=REQUIRED, drivers=["drv_C12"])
     ok, bdir, lg = repo.build("tools", targets=["filter", "query"])
@@ -466,6 +524,9 @@ def run(ctx):
                             "model_head": case["model"][:160].decode("latin-1"), "vocab_head": case["vocab"][:80].decode("latin-1")})
             if check_case(env, case, configs, reps, pool):
                 found = True
+        # 2b. large batches of short lines (InputBuffer must never reallocate)
+        if env.found < 6 and large_batch_stream(env, pool):
+            found = True
         # 3. perturbed schedules of the real pipeline (hooks at the PCQueue / ThreadPool scheduling points)
         if env.found < 6:
             okh, hexe, lgh = build_sched_harness(bdir)
